@@ -456,6 +456,50 @@ fn check_tape(tape: &[u8], gates: &Gates, codes: &[String], stats: &mut Stats, c
             }
         }
     }
+    // (b5) the set split between a directory and a sub-directory of it (a directory argument is not
+    // searched recursively, so the deeper files are named as well - one by one, or by their directory),
+    // in either order: a path that lies below an earlier argument is an argument like any other
+    if files.len() >= 2 && choice.ratio(1, 3) {
+        let k = 1 + choice.below(files.len() - 1);
+        let nest = dir.path.join("nest");
+        let deeper = nest.join("deeper");
+        std::fs::create_dir_all(&deeper).unwrap();
+        let mut deep_files = vec![];
+        for (i, f) in files.iter().enumerate() {
+            if i < k {
+                std::fs::write(nest.join(crate::drive::set_file_name(i)), &disk(&f.text)).unwrap();
+            } else {
+                let p = deeper.join(crate::drive::set_file_name(i));
+                std::fs::write(&p, &disk(&f.text)).unwrap();
+                deep_files.push(p.to_string_lossy().to_string());
+            }
+        }
+        let d = nest.to_string_lossy().to_string();
+        let dd = deeper.to_string_lossy().to_string();
+        let orders: Vec<Vec<String>> = vec![
+            std::iter::once(d.clone()).chain(deep_files.iter().cloned()).collect(),
+            deep_files.iter().cloned().chain(std::iter::once(d.clone())).collect(),
+            vec![d.clone(), dd.clone()],
+            vec![dd.clone(), d.clone()],
+        ];
+        for ord in orders {
+            let mut args = vec!["check".to_string()];
+            args.extend(ord.clone());
+            if let (Some(o), Some(b)) = (observe_check(&args), &base) {
+                if counting {
+                    stats.class("check.directory-and-paths-below-it");
+                }
+                channels_agree(&o, codes, "check <dir> <paths below dir>").map_err(|(k2, d2)| fail("channels", &k2, d2))?;
+                if (o.status == Some(0)) != (b.0 == Some(0)) {
+                    return Err(fail(
+                        "nested",
+                        "exit-differs",
+                        format!("the set given as a directory ({} file(s)) and {} below it, directory {}, exits {:?}; all files explicit: {:?}", k, if ord.contains(&dd) { "its sub-directory" } else { "the files of its sub-directory" }, if ord[0] == d { "first" } else { "last" }, o.status, b.0),
+                    ));
+                }
+            }
+        }
+    }
     // (c) directory + extra file outside it
     if choice.flag() {
         let extra = dir.write("extra.st", b"PROGRAM extra_prog\nVAR\nextra_v : INT;\nEND_VAR\nextra_v := 1;\nEND_PROGRAM\n").to_string_lossy().to_string();
